@@ -36,6 +36,7 @@ RULES = {
     "C13-T2": "extent agreement: success paths store len from (cursor - token start) after the last cursor change and return the consumed length",
     "C13-T3": "unit detector: data only after header+white space; INVALID exactly when not ended by NL, ';' or end of input",
     "C13-T5": "sub-token order of the decimal numeric recognisers is that of 488.2 7.7.2.2: [sign] digits ['.' digits] [[ws] E [ws] [sign] digits]",
+    "C13-T6": "parser level: scpiParser_parseProgramData / parseAllProgramData report exactly the number of bytes their recognisers consumed (white space included), on every path",
     "C13-T4": "character classes of predicate helpers and of every advance guard equal the 488.2 classes (computed over all 256 byte values)",
 }
 
@@ -498,6 +499,58 @@ def rule_t5(ck, prog):
             ck.holds("C13-T5", st, K.loc(f), "paths consume exactly %s" % sorted(allowed_t))
 
 
+def rule_t6(ck, prog):
+    """conservation: bytes consumed by the recognisers a parser function calls == the length it reports"""
+    from sa import bounds as B
+    from sa.linear import Lin
+    from . import boundsrules as BR
+    for fname in ("scpiParser_parseProgramData",):
+        f = prog.fn(fname)
+        if f is None:
+            ck.anchor_lost("C13-T6", fname)
+            continue
+        ck.analysed(f)
+        an = B.Analysis(prog, f, {}, BR.spec()["contracts"], loads=False, max_paths=20000)
+        orig = an.do_elem
+
+        def hook(st, n, orig=orig, an=an):
+            if n.k == "ReturnStmt" and n.ch:
+                v = an.value(st, n.child(0))
+                cons = st.env.get("$consumed", Lin.const(0))
+                what = "the value returned equals the bytes consumed by the recognisers called on this path"
+                if v is None:
+                    site = an.sites.setdefault(("ret", n.id), B.Site(n, "extent", what))
+                    site.results.append((False, False, True, "returned value not expressible", None, None))
+                else:
+                    for g in (v - cons, cons - v):
+                        an.oblige_fact(st, n, "extent", g, what, key=("ret", n.id))
+            return orig(st, n)
+        an.do_elem = hook
+        try:
+            sites = an.run()
+        except RecursionError:
+            ck.undecided("C13-T6", K.site(f, "extent", 0), K.loc(f), "path explosion")
+            continue
+        k = 0
+        for s_ in sites.values():
+            if s_.kind != "extent":
+                continue
+            v, r = s_.verdict()
+            st = K.site(f, "reported-length", k)
+            k += 1
+            if v == "HOLDS":
+                ck.holds("C13-T6", st, K.loc(f, s_.node), "returned length == consumed bytes on all %d paths" % len(s_.results))
+            elif v == "VIOLATED":
+                ck.violated("C13-T6", st, K.loc(f, s_.node),
+                            "%s can report fewer/more bytes than its recognisers consumed: the program-data length handed to the "
+                            "handler's parameter readers is then short, and the last items of `1 , 2 ,3` are lost; witness %s" % (fname, r[5]),
+                            {"facts": r[4]})
+            else:
+                ck.undecided("C13-T6", st, K.loc(f, s_.node), "%s: %s" % (s_.what, r[3]), {"facts": r[4]})
+        if k == 0:
+            ck.anchor_lost("C13-T6", "return of %s" % fname)
+
+
 def run(ck, fb, tier):
     for cfg in fb.configs:
         ck.config = cfg
@@ -511,6 +564,7 @@ def run(ck, fb, tier):
         rule_t4(ck, prog, S, model)
         rule_t3(ck, prog, S)
         rule_t5(ck, prog)
+        rule_t6(ck, prog)
     ck.trust("spec/char_classes.json (488.2 section 7 classes and the leniencies of src/scpi.g)",
              "<ctype.h> classifiers by their C-locale definition")
     if tier == "thorough":
